@@ -137,7 +137,7 @@ func (im *c07Importer) check(path, dir string) (*types.Package, error) {
 		}
 		files = append(files, f)
 	}
-	info := &types.Info{Types: map[ast.Expr]types.TypeAndValue{}}
+	info := &types.Info{Types: map[ast.Expr]types.TypeAndValue{}, Defs: map[*ast.Ident]types.Object{}, Uses: map[*ast.Ident]types.Object{}}
 	conf := types.Config{Importer: im, Error: func(err error) { im.errs = append(im.errs, err.Error()) }, FakeImportC: true}
 	// several files may belong to different packages (package main vs. pkglint): group by name
 	byName := map[string][]*ast.File{}
